@@ -71,6 +71,14 @@ static int check(const std::string &ob, const std::vector<long> &a, const std::v
     if (NN != MM) return 0;
     DenseMatrix A = to_dense(a, NN, NN); Mat MA = to_mat(A); RCP<const Basic> d = laplace(MA);
     if (ob.find("det_bareis") != std::string::npos) { if (!eq(*det_bareis(A), *d)) { if (verbose) { show(MA, "A"); std::cout << "REPRODUCED: det_bareis = " << det_bareis(A)->__str__() << ", cofactor expansion = " << d->__str__() << "\n"; } return 1; } return 0; }
+    if (ob.find("det_berkowitz") != std::string::npos) { if (!eq(*det_berkowitz(A), *d)) { if (verbose) { show(MA, "A"); std::cout << "REPRODUCED: det_berkowitz = " << det_berkowitz(A)->__str__() << ", cofactor expansion = " << d->__str__() << "\n"; } return 1; } return 0; }
+    if (ob.find("char_poly") != std::string::npos) {
+        DenseMatrix P(NN + 1, 1); char_poly(A, P);
+        RCP<const Basic> tr = zero; for (unsigned i = 0; i < NN; i++) tr = add(tr, MA[i][i]);
+        RCP<const Basic> cn = (NN % 2 == 0) ? d : mul(minus_one, d);
+        if (!eq(*P.get(0, 0), *one) || !eq(*P.get(1, 0), *mul(minus_one, tr)) || !eq(*P.get(NN, 0), *cn)) { if (verbose) { show(MA, "A"); show(to_mat(P), "char_poly"); std::cout << "REPRODUCED: characteristic polynomial is not x^n - tr x^(n-1) + ... + (-1)^n det\n"; } return 1; }
+        return 0;
+    }
     bool sym = true; for (unsigned i = 0; i < NN; i++) for (unsigned j = 0; j < NN; j++) if (!eq(*MA[i][j], *MA[j][i])) sym = false;
     Mat I(NN, std::vector<RCP<const Basic>>(NN, zero)); for (unsigned i = 0; i < NN; i++) I[i][i] = one;
     auto leading_minors_ok = [&]() { for (unsigned k = 1; k <= NN; k++) { Mat S; for (unsigned i = 0; i < k; i++) S.push_back(std::vector<RCP<const Basic>>(MA[i].begin(), MA[i].begin() + k)); if (is0(laplace(S))) return false; } return true; };
